@@ -1233,6 +1233,12 @@ func (m Dot11) SerializeTo(b gopacket.SerializeBuffer, opts gopacket.SerializeOp
 		return err
 	}
 
+	// The prepended bytes are not zeroed, and not every frame type (or a short
+	// address) fills all 24 of them.
+	for i := range buf {
+		buf[i] = 0
+	}
+
 	buf[0] = (uint8(m.Type) << 2) | m.Proto
 	buf[1] = uint8(m.Flags)
 
